@@ -338,6 +338,20 @@ def search_meta_entry_points(ck, sr, drv, tier: str) -> None:
                             ('wcmatch.WcMatch', lambda p, x: sorted(WM.WcMatch(root, p, flags=WM.RECURSIVE | (fl & (F.EXTMATCH | F.BRACE | F.MINUSNEGATE)) | (WM.RAWCHARS if x else 0)).match())),
                             ('wcmatch.WcMatch[exclude]', lambda p, x: sorted(WM.WcMatch(root, conv('*'), p, flags=WM.RECURSIVE | (fl & (F.EXTMATCH | F.BRACE | F.MINUSNEGATE)) | (WM.RAWCHARS if x else 0)).match())),
                         ]
+                        # the same pattern as an exclude= argument (decoding must happen there too: seeded change C20d)
+                        xfl = fl & ~(F.NEGATE | F.MINUSNEGATE)
+                        xgfl = gfl & ~(F.NEGATE | F.MINUSNEGATE)
+                        star = conv('*')
+                        apis += [
+                            ('fnmatch.fnmatch[exclude=]', lambda p, x: [F.fnmatch(conv(n), star, flags=xfl | x, exclude=p) for n in names]),
+                            ('fnmatch.filter[exclude=]', lambda p, x: F.filter([conv(n) for n in names], star, flags=xfl | x, exclude=p)),
+                            ('fnmatch.compile[exclude=]', lambda p, x: [F.compile(star, flags=xfl | x, exclude=p).match(conv(n)) for n in names]),
+                            ('fnmatch.translate[exclude=]', lambda p, x: F.translate(star, flags=xfl | x, exclude=p)),
+                            ('glob.globmatch[exclude=]', lambda p, x: [G.globmatch(conv(n), star, flags=xgfl | x, exclude=p) for n in names]),
+                            ('glob.globfilter[exclude=]', lambda p, x: G.globfilter([conv(n) for n in names], star, flags=xgfl | x, exclude=p)),
+                            ('glob.compile[exclude=]', lambda p, x: [G.compile(star, flags=xgfl | x, exclude=p).match(conv(n)) for n in names]),
+                            ('glob.glob[exclude=]', lambda p, x: sorted(G.glob(star, flags=xgfl | x, root_dir=root, exclude=p))),
+                        ]
                         if not isb:
                             pfl = gfl & ~(F.FORCEWIN | F.FORCEUNIX)
                             apis += [
